@@ -40,10 +40,14 @@ static const KnownDefect KNOWN_DEFECTS[] = {
     {"table-fallback-mapping", "intrinsic Windows-1252/IBM037/IBM1047/IBM1140 encoders map U+FF01..U+FF5E (and other best-fit characters) to ASCII look-alikes instead of reporting them unrepresentable"},
     {"table-cantranscodeto-truncates", "XML256TableTranscoder::canTranscodeTo(unsigned int) passes the code point to xlatOneTo(XMLCh): values > 0xFFFF are truncated to 16 bits, so e.g. U+10041 is reported representable"},
     {"icu-default-ignorable-dropped", "ICUTranscoder::transcodeTo/canTranscodeTo: ICU's STOP/SUBSTITUTE callbacks skip unmappable default-ignorable code points (U+00AD, U+200B, ...), which are silently dropped instead of being reported"},
+    {"ibm1047-nl-decodes-to-lf", "XMLIBM1047Transcoder gFromTable[0x15] is U+000A while gToTable maps U+0085 -> 0x15 and U+000A -> 0x25 (IBM037/IBM1140 and the IBM/ICU ibm-1047 table decode 0x15 as U+0085): NEL written by the encoder is read back as LF"},
     {"table-nul-unrepresentable", "XML256TableTranscoder::xlatOneTo uses 0 as 'not found', so U+0000 is reported unrepresentable"},
     {"icu-cantranscodeto-supplementary", "ICUTranscoder::canTranscodeTo builds the surrogate pair without subtracting 0x10000 and so tests a different (or ill-formed) character"},
+    {"icu-unrepresentable-overread", "ICUTranscoder::transcodeTo reads *startSrc for the error message after ICU advanced it past the offending character: one XMLCh past the end of the source buffer when that character is the last one (ASan: heap-buffer-overflow READ 2)"},
+    {"icu-illegal-input-substituted", "ICUTranscoder::transcodeFrom leaves ICU's default to-Unicode callback (SUBSTITUTE) installed: illegal and unassigned byte sequences of every ICU-provided encoding are decoded as U+FFFD / U+001A instead of raising TranscodingException"},
     {"icu-truncated-input-swallowed", "ICUTranscoder::transcodeFrom (flush=false) consumes a truncated trailing sequence into converter state; TranscodeFromStr and XMLReader then see a clean end of input"},
-    {"icu-encode-overflow-lost", "ICUTranscoder::transcodeTo reports characters as eaten whose bytes are still in ICU's internal overflow buffer; the tail is lost when the caller stops (TranscodeToStr)"},
+    {"icu-decode-pair-overflow-lost", "ICUTranscoder::transcodeFrom with room for one XMLCh and a supplementary character next: ICU emits the high surrogate, reports the bytes eaten and keeps the low surrogate in its internal overflow buffer; it is lost when the input ends there"},
+    {"icu-encode-overflow-lost", "ICUTranscoder::transcodeTo when a character straddles the end of the output block: the character is reported eaten while part of its bytes stay in ICU's internal overflow buffer; the tail is lost when the caller stops (TranscodeToStr), or the next call fills the block from that buffer, eats nothing and is misreported as Trans_Unrepresentable"},
 };
 static bool g_strict = false;
 inline bool is_known_id(const std::string& id) {
@@ -172,11 +176,12 @@ inline Bytes ref_utf32_encode(uint32_t cp, bool be) {
 struct IcuRef {
     UConverter* cnv = nullptr;
     std::string name;
-    bool open(const char* n) {
+    bool open(const char* n, bool substituting = false) {
         UErrorCode e = U_ZERO_ERROR;
         cnv = ucnv_open(n, &e);
         if (U_FAILURE(e) || !cnv) { cnv = nullptr; return false; }
         name = n;
+        if (substituting) return true;  // ICU defaults: used only to PREDICT the exact output of the known defect icu-illegal-input-substituted
         ucnv_setFallback(cnv, 0);
         e = U_ZERO_ERROR;
         ucnv_setToUCallBack(cnv, UCNV_TO_U_CALLBACK_STOP, nullptr, nullptr, nullptr, &e);
@@ -265,10 +270,15 @@ struct ToRes {
     bool threw = false; std::string exc;
     Bytes out; size_t eaten = 0;
 };
+// g_src_pad_units: the ICU wrapper reads one unit past the source when the LAST character is unrepresentable (known defect
+// icu-unrepresentable-overread, reported by its witness with an exact buffer); drivers set this to 1 for ICU-provided encodings so
+// that the rest of the space can be explored without a sanitizer abort per case.
+static size_t g_src_pad_units = 0;
 inline ToRes x_to(XMLTranscoder* t, const uint16_t* src, size_t n, size_t maxBytes, XMLTranscoder::UnRepOpts opt = XMLTranscoder::UnRep_Throw) {
     ToRes r;
-    XMLCh* s = (XMLCh*)g_src.get(n * sizeof(XMLCh));
+    XMLCh* s = (XMLCh*)g_src.get((n + g_src_pad_units) * sizeof(XMLCh));
     if (n) memcpy(s, src, n * sizeof(XMLCh));
+    for (size_t i = 0; i < g_src_pad_units; i++) s[n + i] = 0x0041;
     uint8_t* out = g_dst.get(maxBytes);
     memset(out, 0xEE, maxBytes);
     XMLSize_t eaten = 0;
